@@ -28,6 +28,7 @@ EQUIVALENT = {
     "c13-recv-error-unhandled": "the error reaches wasyncore's catch-all, which closes the channel on the I/O thread as well",
     "c19-no-latch": "expect_continue is reset by send_continue(), which alone prevents a second 100 Continue",
     "c19-expect-not-reset": "the sent_continue latch alone prevents a second 100 Continue",
+    "seeded/C16-r6-1": "bad quoting in a hop LEFT of the trusted suffix is no longer answered with 400: C16's stated assumption accepts 400 or 200 there (the discarded hops reach nothing; inside the suffix the 400 is still required and still given)",
 }
 
 
